@@ -520,6 +520,9 @@ func (self *MerkleVerifier) VerifyConsistency(old_tree_size,
 		return errors.New(fmt.Sprintf("Older tree has bigger size %d vs %d", old_size, new_size))
 	}
 	if old_root == new_root {
+		if old_size != new_size {
+			return errors.New(fmt.Sprintf("Equal roots for different tree sizes %d vs %d", old_size, new_size))
+		}
 		return nil
 	}
 	if old_size == 0 {
